@@ -79,8 +79,18 @@ fn sorted(mut v: Vec<u32>, probes: &mut Probes) -> Vec<u32> {
     v
 }
 
+/// ids of a group in the order the group yields them (raw: a reader of the API sees this order)
 fn group(g: &hpo::term::HpoGroup, probes: &mut Probes) -> Vec<u32> {
-    sorted(g.iter().map(|i| i.as_u32()).collect(), probes)
+    let v: Vec<u32> = g.iter().map(|i| i.as_u32()).collect();
+    if v.windows(2).any(|w| w[0] >= w[1]) {
+        probes.unsorted_groups += 1;
+    }
+    v
+}
+
+/// every id a group yields must also be found by `contains` (membership is how the relations are queried)
+fn members_found(g: &hpo::term::HpoGroup) -> Option<u32> {
+    g.iter().find(|i| !g.contains(i)).map(|i| i.as_u32())
 }
 
 pub fn observe(o: &Ontology) -> Obs {
@@ -122,6 +132,11 @@ pub fn observe(o: &Ontology) -> Obs {
         if all_parents.len() > 30 {
             probes.spilled_ancestor_sets += 1;
         }
+        for (owner, g) in [("term.parents", t.parent_ids()), ("term.children", t.children_ids()), ("term.all_parents", t.all_parent_ids())] {
+            if let Some(x) = members_found(g) {
+                a(owner, format!("the id group yields {x} but contains({x}) is false"));
+            }
+        }
         // resolving iterators
         for (owner, ids, which) in [("term.parents", &parents, 0u8), ("term.children", &children, 1), ("term.all_parents", &all_parents, 2)] {
             let r = guarded(|| {
@@ -136,7 +151,9 @@ pub fn observe(o: &Ontology) -> Obs {
             });
             match r {
                 Ok(v) => {
-                    if &v != ids {
+                    let mut want = ids.clone();
+                    want.sort_unstable();
+                    if v != want {
                         a(owner, format!("resolving iterator yields {v:?}, id group is {ids:?}"));
                     }
                 }
@@ -257,6 +274,21 @@ pub fn observe(o: &Ontology) -> Obs {
         .map(|g| RecObs { id: g.id().as_u32(), name: g.name().to_string(), terms: group(g.hpo_terms(), &mut probes) })
         .collect();
     orpha.sort_by_key(|r| r.id);
+    for g in o.genes() {
+        if let Some(x) = members_found(g.hpo_terms()) {
+            anomalies.push(("gene.terms".into(), format!("gene {}: hpo_terms() yields {x} but contains({x}) is false", g.id().as_u32())));
+        }
+    }
+    for g in o.omim_diseases() {
+        if let Some(x) = members_found(g.hpo_terms()) {
+            anomalies.push(("omim.terms".into(), format!("omim {}: hpo_terms() yields {x} but contains({x}) is false", g.id().as_u32())));
+        }
+    }
+    for g in o.orpha_diseases() {
+        if let Some(x) = members_found(g.hpo_terms()) {
+            anomalies.push(("orpha.terms".into(), format!("orpha {}: hpo_terms() yields {x} but contains({x}) is false", g.id().as_u32())));
+        }
+    }
     // by-id lookups must return the record the iterators show, symbol == name
     for g in &genes {
         match o.gene(&g.id.into()) {
@@ -349,7 +381,39 @@ pub fn clip(s: &str) -> String {
 }
 
 /// All differences between two observations (capped). `a` is "left" / expected.
+/// Id groups are compared as sets (the model is always ascending; sortedness of a group is C12's business).
 pub fn diff(a: &Obs, b: &Obs, icm: IcCmp) -> Vec<Diff> {
+    diff_opts(a, b, icm, false)
+}
+
+fn canon(o: &Obs) -> Obs {
+    let mut c = o.clone();
+    for t in &mut c.terms {
+        t.parents.sort_unstable();
+        t.children.sort_unstable();
+        t.all_parents.sort_unstable();
+    }
+    for r in c.genes.iter_mut().chain(c.omim.iter_mut()).chain(c.orpha.iter_mut()) {
+        r.terms.sort_unstable();
+    }
+    c.categories.sort_unstable();
+    c.modifier.sort_unstable();
+    c
+}
+
+/// `raw_order`: two replicas of the same facts must also yield every id group in the same order
+/// (C07 / C16: only the iteration order of terms, genes and diseases may differ)
+pub fn diff_opts(a: &Obs, b: &Obs, icm: IcCmp, raw_order: bool) -> Vec<Diff> {
+    if !raw_order {
+        let unsorted = |o: &Obs| o.probes.unsorted_groups > 0;
+        if unsorted(a) || unsorted(b) {
+            return diff_raw(&canon(a), &canon(b), icm);
+        }
+    }
+    diff_raw(a, b, icm)
+}
+
+fn diff_raw(a: &Obs, b: &Obs, icm: IcCmp) -> Vec<Diff> {
     let mut out = vec![];
     if a.version != b.version {
         out.push(d("version", "", &a.version, &b.version));
